@@ -15,7 +15,9 @@ from ..runner import R, drive, ROOT
 from .. import common
 
 ID = "C19"
-RULE = ("Hypothesis draws (request from a pool of 22 derivation / "
+RULE = ("Fixed: every pool request once with a non-zero PYTHONHASHSEED, 16 "
+        "requests under two name configurations; Hypothesis draws (request "
+        "from a pool of 26 derivation / "
         "transformation requests, history of 0-6 other requests and explicit "
         "/ generic / spin index requests, PYTHONHASHSEED, optional "
         "tensor-name configuration). Every tuple runs in a FRESH interpreter "
@@ -39,7 +41,8 @@ REQUESTS = ["energy2", "re_energy2", "mp_amp_2_ph", "mp_amp_1_pphh",
             "expec_2", "psi_2", "norm_2", "norm_4", "expand_density",
             "precursor_1", "overlap_pre_2",
             "m_ph_ph_1", "m_ph_ph_2", "m_ip_2", "mvp_1", "tm_1", "tm_2",
-            "expec_block_1", "t2_2", "t1_2_once", "p0_2_oo", "reduce_t1_2"]
+            "expec_block_1", "t2_2", "t1_2_once", "p0_2_oo", "reduce_t1_2",
+            "p0_3_oo", "p0_3_vv", "t1_3", "t2eri_A"]
 CHEAP_HISTORY = ["energy2", "mp_amp_2_ph", "psi_2", "norm_2", "precursor_1",
                  "m_ph_ph_1", "tm_1", "t2_2", "p0_2_oo", "expec_2",
                  "overlap_pre_2", "mvp_1"]
@@ -212,7 +215,16 @@ FIXED_REQ = ["expand_density", "p0_2_oo", "t2_2", "reduce_t1_2", "m_ph_ph_2",
              "t1_2_once"]
 
 
+# fixed hash-seed cases (one per shard): every pool request once with a
+# non-zero PYTHONHASHSEED and empty history
+HASHSEEDS = [1, 2, 12345, 987654321]
+
+
 def run_shard(col, shard, nshards, seed, tier):
+    for k in range(shard, len(REQUESTS), nshards):
+        col.run({"request": REQUESTS[k], "history": [],
+                 "hashseed": HASHSEEDS[(k + seed) % len(HASHSEEDS)],
+                 "names": None}, run_case)
     for k in range(shard, 2 * len(FIXED_REQ), nshards):
         conf = CONF_A if (k // len(FIXED_REQ) + k) % 2 == 0 else CONF_B
         if tier == "quick" and k >= len(FIXED_REQ):
